@@ -448,6 +448,105 @@ def coupling2d (dx dy ca cp : α) (isY : Bool) : α :=
 def coupling2dList (dxs dys cas cps : List α) (isY : Bool) : List α :=
   List.zipWith (fun (p : α × α) (c : α × α) => coupling2d p.1 p.2 c.1 c.2 isY) (dxs.zip dys) (cas.zip cps)
 
+/-! ### Stimson–Jeffery: two beads moving along their line of centres (`coupling_correction_factor_stimson`) -/
+
+/-- hyperbolic functions through `exp` / `log` / `sqrt` (what `RealLike` offers; `np.sinh`, `np.cosh`, `np.arccosh`
+    agree with these to rounding, which the comparison tolerance of the `c20.stimson` op absorbs) -/
+def sinhE (x : α) : α := (exp x - exp (-x)) / 2.0
+def coshE (x : α) : α := (exp x + exp (-x)) / 2.0
+def arccoshE (x : α) : α := log (x + sqrt ((x - 1.0) * (x + 1.0)))
+
+/-- `np.isfinite(x)`: `x − x` is zero exactly for finite numbers (`inf − inf` and `nan − nan` are `nan`) -/
+def isFiniteE (x : α) : Bool := isZero (x - x)
+
+/-- `to_curvilinear_coordinates(r1, r2, distance)`: bispherical coordinates `(a, α, β)` with the origin on the radical
+    plane of the two spheres; `ValueError` when the beads overlap (`r1 + r2 > distance`) -/
+def toCurvilinear (r1 r2 d : α) : Except Err (α × α × α) :=
+  if lt d (r1 + r2) then .error .value else
+  let d1 := (r1 * r1 - r2 * r2 + d * d) / (2.0 * d)
+  let d2 := d - d1
+  let x1 := d1 / r1
+  let x2 := d2 / r2
+  let al := arccoshE x1
+  let be := -(arccoshE x2)
+  let a := d / (x1 / sinhE al - x2 / sinhE be)
+  .ok (a, al, be)
+
+/-- `calculate_k(n, a)`, Eq. 25 -/
+def stimsonK (n a : α) : α :=
+  (a * a * n * (n + 1.0)) / (sqrt 2.0 * (2.0 * n - 1.0) * (2.0 * n + 1.0) * (2.0 * n + 3.0))
+
+/-- `calculate_delta(n, α, β)`, Eq. 27, in `m = α − β` -/
+def stimsonDelta (n m : α) : α :=
+  4.0 * (sinhE ((n + 0.5) * m) * sinhE ((n + 0.5) * m)) - (2.0 * n + 1.0) * (2.0 * n + 1.0) * (sinhE m * sinhE m)
+
+/-- `calculate_an`, Eq. 28 (`m = α − β`, `p = α + β`) -/
+def stimsonAn (n k m p delta : α) : α :=
+  (2.0 * n + 3.0) * k *
+    (4.0 * exp (-((n + 0.5) * m)) * sinhE ((n + 0.5) * m)
+      + (2.0 * n + 1.0) * (2.0 * n + 1.0) * exp m * sinhE m
+      + 2.0 * (2.0 * n - 1.0) * sinhE ((n + 0.5) * m) * coshE ((n + 0.5) * p)
+      + -(2.0 * (2.0 * n + 1.0)) * sinhE ((n + 1.5) * m) * coshE ((n - 0.5) * p)
+      + -((2.0 * n + 1.0) * (2.0 * n - 1.0)) * sinhE m * coshE p) / delta
+
+/-- `calculate_bn`, Eq. 29 -/
+def stimsonBn (n k m p delta : α) : α :=
+  -((2.0 * n + 3.0) * k) *
+    (2.0 * (2.0 * n - 1.0) * sinhE ((n + 0.5) * m) * sinhE ((n + 0.5) * p)
+      + -(2.0 * (2.0 * n + 1.0)) * sinhE ((n + 1.5) * m) * sinhE ((n - 0.5) * p)
+      + (2.0 * n + 1.0) * (2.0 * n - 1.0) * sinhE m * sinhE p) / delta
+
+/-- `calculate_cn`, Eq. 30 -/
+def stimsonCn (n k m p delta : α) : α :=
+  -((2.0 * n - 1.0) * k) *
+    (4.0 * exp (-((n + 0.5) * m)) * sinhE ((n + 0.5) * m)
+      + -((2.0 * n + 1.0) * (2.0 * n + 1.0)) * exp (-m) * sinhE m
+      + 2.0 * (2.0 * n + 1.0) * sinhE ((n - 0.5) * m) * coshE ((n + 1.5) * p)
+      + -(2.0 * (2.0 * n + 3.0)) * sinhE ((n + 0.5) * m) * coshE ((n + 0.5) * p)
+      + (2.0 * n + 1.0) * (2.0 * n + 3.0) * sinhE m * coshE p) / delta
+
+/-- `calculate_dn`, Eq. 31 -/
+def stimsonDn (n k m p delta : α) : α :=
+  (2.0 * n - 1.0) * k *
+    (2.0 * (2.0 * n + 1.0) * sinhE ((n - 0.5) * m) * sinhE ((n + 1.5) * p)
+      + -(2.0 * (2.0 * n + 3.0)) * sinhE ((n + 0.5) * m) * sinhE ((n + 0.5) * p)
+      + (2.0 * n + 1.0) * (2.0 * n + 3.0) * sinhE m * sinhE p) / delta
+
+/-- summand `n` of both series: `(2n+1)(aₙ + bₙ + cₙ + dₙ)`, `(2n+1)(aₙ − bₙ + cₙ − dₙ)`; all four coefficients are
+    taken as zero when `Δₙ` overflowed (their limit) -/
+def stimsonTerm (a m p : α) (n : Nat) : α × α :=
+  let nn : α := ofNat n
+  let k := stimsonK nn a
+  let delta := stimsonDelta nn m
+  if isFiniteE delta then
+    let an := stimsonAn nn k m p delta
+    let bn := stimsonBn nn k m p delta
+    let cn := stimsonCn nn k m p delta
+    let dn := stimsonDn nn k m p delta
+    ((2.0 * nn + 1.0) * (an + bn + cn + dn), (2.0 * nn + 1.0) * (an - bn + cn - dn))
+  else ((2.0 * nn + 1.0) * 0.0, (2.0 * nn + 1.0) * 0.0)
+
+/-- the summation loop `for n in range(1, max_summands + 1)`: add summand `n` to both sums, stop after the first
+    summand that is below the tolerance for BOTH beads (`fuel` = summands left) -/
+def stimsonLoop (a m p tol1 tol2 : α) : Nat → Nat → α → α → α × α
+  | 0, _, c1, c2 => (c1, c2)
+  | fuel + 1, n, c1, c2 =>
+    let e := stimsonTerm a m p n
+    if lt (abs e.1) tol1 && lt (abs e.2) tol2 then (c1 + e.1, c2 + e.2)
+    else stimsonLoop a m p tol1 tol2 fuel (n + 1) (c1 + e.1) (c2 + e.2)
+
+/-- `coupling_correction_factor_stimson(radius1, radius2, distance, max_summands=maxN, tol=1e-10)`: the factor of
+    bead 1 and of bead 2 -/
+def stimson (r1 r2 d : α) (maxN : Nat) : Except Err (α × α) :=
+  match toCurvilinear r1 r2 d with
+  | .error e => .error e
+  | .ok (a, al, be) =>
+    let pre := -(1.0 / 3.0) * sqrt 2.0 / a
+    let tol1 := 1.0e-10 / abs (pre / r1)
+    let tol2 := 1.0e-10 / abs (pre / r2)
+    let c := stimsonLoop a (al - be) (al + be) tol1 tol2 maxN 1 0.0 0.0
+    .ok (pre * c.1 / r1, pre * c.2 / r2)
+
 end formulas
 
 /-! ### protocol -/
@@ -496,6 +595,9 @@ def chain? : List String → Option (List (Wrapper Float))
       `FixedDiodeModel(fixed_f_diode, fixed_alpha)`, called once per (f_diode, alpha) pair (only the free ones are passed):
       `[filter, psd, psd behind the wrapper steps, …]` (three numbers per call) or an error name
   `c20.couple2d is_y rot R [dx,…] [dy,…] [aligned factor,…]` -> `coupling_correction_2d(dx, dy, 2R, is_y, rot)`, one factor per pair
+  `c20.stimson r1 r2 d [1|2]` -> `coupling_correction_factor_stimson(r1, r2, d)`: `[factor of bead 1, factor of bead 2]` (or the one asked for) or an error name
+  `c20.stimsonlist R [d,…]` -> the first factor of `coupling_correction_factor_stimson(R, R, d)` for every `d`, or an error name
+  `c20.bispherical r1 r2 d` -> `to_curvilinear_coordinates(r1, r2, d)`: `[a, alpha, beta]` or an error name
   `c20.water V|D [T,…] c|N p|N` -> `viscosity_of_water` / `density_of_water` at each temperature, or an error name -/
 def handle : List String → Option String
   | ["c20.lor", f, fc, D] => do
@@ -634,6 +736,27 @@ def handle : List String → Option String
     -- the perpendicular factor at each pair's own distance (`np.sqrt(dx**2 + dy**2)`); the aligned one is handed in
     let cps := (dxs.zip dys).map fun ((dx, dy) : Float × Float) => goldman R (Float.sqrt (dx * dx + dy * dy)) rot
     some (showFloatList (coupling2dList dxs dys sts cps isY))
+  | ["c20.stimson", r1, r2, d] => do
+    match stimson (← float? r1) (← float? r2) (← float? d) 100000 with
+    | .error e => some (showErr e)
+    | .ok (c1, c2) => some (showFloatList [c1, c2])
+  | ["c20.stimson", r1, r2, d, which] => do
+    if which != "1" && which != "2" then none else
+    match stimson (← float? r1) (← float? r2) (← float? d) 100000 with
+    | .error e => some (showErr e)
+    | .ok (c1, c2) => some (showFloat (if which == "1" then c1 else c2))
+  | ["c20.stimsonlist", R, ds] => do
+    -- the factor along the line of centres for equal beads at each of the given distances (what `coupling_correction_2d`
+    -- asks `coupling_correction_factor_stimson` for, pair by pair)
+    let R ← float? R; let ds ← floatList? ds
+    let rs := ds.map fun d => (stimson R R d 100000).map (·.1)
+    match rs.mapM id with
+    | .error e => some (showErr e)
+    | .ok vs => some (showFloatList vs)
+  | ["c20.bispherical", r1, r2, d] => do
+    match toCurvilinear (← float? r1) (← float? r2) (← float? d) with
+    | .error e => some (showErr e)
+    | .ok (a, al, be) => some (showFloatList [a, al, be])
   | ["c20.water", fn, ts, c, p] => do
     let ts ← floatList? ts; let c ← optFloat? c; let p ← optFloat? p
     let one (T : Float) : Option (Except Err Float) :=
